@@ -223,6 +223,10 @@ def check(an, rep, tier):
                    else None)
     rep.add('P-domain', 'optima.optima_qtt', 'indices mapped back with %s'
             % sorted(map(str, qs)), 'ok' if qs == {'q'} else 'violation', '')
+    from .. import rules_proto as _RP
+    _callers = {f.qualname for f in prog.all_functions()
+                if f.module.name in ('optima', 'optima_func')}
+    _RP.check_param_forwarding(prog, rep, callers=_callers)
     rep.floor('S-layout', 3, 'beam layouts')
     rep.floor('V-provenance', 4, 'value provenance')
     rep.floor('U-ledger', 4, 'beam ledger')
